@@ -246,3 +246,62 @@ def rf16h(run):
                               '%s returns %s, which is not the slot reported by the look-up in %s' % (fname, F.src(rv), tab),
                               line=ret['l'])
     return inst
+
+
+# ---------------------------------------------------------------------------------------------
+# RF18 flag-producer preservation
+# ---------------------------------------------------------------------------------------------
+DELETERS = {'MIR_remove_insn': 2, 'gen_delete_insn': 1, 'ssa_delete_insn': 1, 'remove_insn_ssa_edges': None}
+
+
+def rf18(run, units=('mir', 'gen')):
+    rule = 'RF18'
+    run.rule(rule, 'wherever an instruction is removed after its opcode has been narrowed to a set by the code\'s own tests, that set '
+                   'contains no overflow-flag producer (MIR_overflow_insn_code_p): a removed producer leaves a following BO/BNO/UBO/UBNO '
+                   'reading a stale flag')
+    n = 0
+    for u in units:
+        tu = run.tu(u)
+        preds = EF.Predicates(tu)
+        uni = frozenset(v for nm, v in tu.enum('MIR_insn_code_t'))
+        ovf = preds.true_set('MIR_overflow_insn_code_p', uni)
+        if not ovf:
+            raise F.AnalysisBroken('MIR_overflow_insn_code_p not evaluable in unit %s' % u)
+        names = {}
+        for nm, v in tu.enum('MIR_insn_code_t'):
+            names.setdefault(v, nm)
+        for f in tu.func_list:
+            sites = [x for x in f.walk() if x['k'] == 'CallExpr' and x.get('callee') in DELETERS and DELETERS[x['callee']] is not None]
+            if not sites:
+                continue
+            try:
+                ef = EF.EnumFlow(tu, f, preds)
+            except F.AnalysisBroken as ex:
+                run.analysis_broken(rule, str(ex))
+                continue
+            run.functions_analysed.add((u, f.name))
+            byid = {s['i']: s for s in sites}
+            for bid in ef.cfg.blocks:
+                for e, st, alias in ef.states_at_elems(bid):
+                    if e['i'] not in byid:
+                        continue
+                    call = byid.pop(e['i'])
+                    arg = F.strip(F.call_args(call)[DELETERS[call['callee']]])
+                    key = F.src(arg) + '->code'
+                    S = ef.lookup(st, alias, key)
+                    n += 1
+                    ident = (u, f.name, call['l'])
+                    # only an explicitly enumerated opcode list counts (a large remainder set left by exclusions such as
+                    # !MIR_call_code_p says nothing about what the author intended to delete)
+                    if S is None or S >= uni or len(S) > 40:
+                        run.ob(rule, ident, True)
+                        continue
+                    bad = S & ovf
+                    run.ob(rule, ident, not bad, {'site': '%s:%d %s' % (f.relfile(), call['l'], f.name), 'removed': F.src(call)[:60],
+                                                  'opcode set': sorted(names[v] for v in S)[:12], 'overflow producers in it': sorted(names[v] for v in bad)})
+                    if bad:
+                        run.violation(rule, f, 'remove %s with code in {%s}' % (F.src(arg), ','.join(sorted(names[v] for v in bad))),
+                                      '%s removes %s although its opcode may be %s, an overflow-flag producer: a following overflow '
+                                      'branch would test a flag that was never computed' % (f.name, F.src(arg), '/'.join(sorted(names[v] for v in bad))),
+                                      line=call['l'])
+    return n
